@@ -122,10 +122,14 @@ SvcCase(s, wrap, dup) == [kind |-> "svc", s |-> s, wrap |-> wrap, dup |-> dup]
 \* letter case), for ids two different ids
 \* ok_many: five further entries of other spellings (URIs: relative references - "parse" is all that is asked of them;
 \* ids: the other characters and the longest length)
-ListVals == {"ok_one", "ok_two", "ok_many", "empty", "not_array", "missing_value", "bad_entry_first", "bad_entry_last", "dup", "dup_respelled"}
+\* empty_entry_last: the empty string behind a valid entry (an entry like any other: it is not dropped before the check)
+ListVals == {"ok_one", "ok_two", "ok_many", "empty", "not_array", "missing_value", "bad_entry_first", "bad_entry_last", "dup", "dup_respelled",
+             "empty_entry_last", "empty_entry_only"}
 ListOk(action, v) ==
     CASE v \in {"ok_one", "ok_two", "ok_many"} -> TRUE
       [] v \in {"dup", "dup_respelled"} -> action \in {"remove-public-keys", "remove-services"}  \* only also-known-as URIs must be unique
+      \* (the empty string is no id; as a URI reference it parses - all that is asked of an also-known-as URI)
+      [] v \in {"empty_entry_last", "empty_entry_only"} -> action \in {"add-also-known-as", "remove-also-known-as"}
       [] OTHER -> FALSE
 ListActions == {"remove-public-keys", "remove-services", "add-also-known-as", "remove-also-known-as"}
 ListCase(a, v) == [kind |-> "list", action |-> a, v |-> v]
